@@ -1464,6 +1464,23 @@ def assumed_check(fns, prop, decided=()):
             f = by[n][0]
             undecided.append('%s:%d: the production %s, whose accepted language is an assumed contract of %s (no contract reaches nom closures; backed for the pinned text only), has changed' % (f.file, f.line, n, prop))
     # a fingerprint comparison backs an ASSUMPTION; it is not an obligation and is not counted as one
+    if prop == 'C17':
+        # C17's frame condition is VIOLATED on the pinned tree (K7: the keyword-version stack is not part of the memo key).  Which inputs
+        # expose it depends on which alternatives traverse a white space holding `begin_keywords / `end_keywords a second time after
+        # an earlier alternative failed behind it - i.e. on the order of alternatives anywhere in the grammar.  The listed findings
+        # speak about the pinned grammar; for another grammar whether further inputs fail is not decided by the frame argument.
+        import hashlib
+        h = hashlib.sha1()
+        for n in sorted(by):
+            for f in sorted(by[n], key=lambda f_: (f_.file, f_.line)):
+                if getattr(f, 'is_parser', False) or getattr(f, 'is_combinator', False):
+                    h.update(n.encode())
+                    h.update(lexer_fingerprint(f).encode())
+        cur_all = h.hexdigest()[:16]
+        if base.get('__all_productions__') is None:
+            undecided.append('no committed fingerprint of the whole grammar (C17)')
+        elif [cur_all] != base.get('__all_productions__'):
+            undecided.append('sv-parser-parser: the grammar is no longer the pinned one while the frame condition of C17 is violated on the pinned tree (K7: the keyword-version stack is outside the memo key); which inputs expose that depends on the order in which alternatives traverse white space holding a directive - whether inputs beyond the listed findings fail is not decided')
     return dict(failures=[], undecided=undecided, checked=0, names=names, compared=checked)
 
 
